@@ -140,12 +140,13 @@ namespace avel {
                 reinterpret_cast<char*>(aligned_allocation) -
                 reinterpret_cast<char*>(unaligned_allocation);
 
-            auto* offset_location =
-                reinterpret_cast<std::size_t*>(
-                    reinterpret_cast<char*>(aligned_allocation) + elements_size
-                );
-
-            new(offset_location) std::size_t{alignment_offset};
+            // The bookkeeping word directly follows the elements and is generally not
+            // aligned for std::size_t: store it byte-wise, as deallocate() reads it
+            std::memcpy(
+                reinterpret_cast<char*>(aligned_allocation) + elements_size,
+                &alignment_offset,
+                sizeof(std::size_t)
+            );
 
             return reinterpret_cast<pointer>(aligned_allocation);
 
